@@ -463,6 +463,44 @@ def check_verdict_used(ctx):
                 ctx.violation("C06-h", st, "%s calls `%s` as a statement, but %s returns a value on every path: its verdict is "
                               "discarded (a check that reports by its result, not by raising, rejects nothing here)"
                               % (A.qualname(fn), A.short(st.value, 50), q), construct="verdict-dropped:%s:%s" % (A.qualname(fn), q))
+    # the converse: a helper that reports by raising returns nothing; asked for its value in a short-circuiting aggregate
+    # (all/any over a generator) or in a test it is None -- all() stops after the first item, so only the first axis is checked
+    n_val = 0
+    pcache = {}
+    for mod, fn in ctx.tree.functions():
+        for call in A.walk_local(fn):
+            if not isinstance(call, ast.Call):
+                continue
+            c = res.call_canon(call)
+            if not c or not c.startswith("lena."):
+                continue
+            m, _, q = c.rpartition(".")
+            callee = ctx.tree.maybe(m, q)
+            if not isinstance(callee, ast.FunctionDef):
+                continue
+            if c not in pcache:
+                pcache[c] = (not A.is_generator(callee)) and all(
+                    r.value is None or A.is_const(r.value, None) for r in A.walk_local(callee) if isinstance(r, ast.Return))
+            if not pcache[c]:
+                continue
+            par = A.parent(call)
+            where = None
+            if isinstance(par, (ast.GeneratorExp, ast.ListComp, ast.SetComp)) and par.elt is call:
+                agg = A.parent(par)
+                if isinstance(agg, ast.Call) and res.call_canon(agg) in ("builtins.all", "builtins.any"):
+                    where = "`%s(...)` over its results" % res.call_canon(agg).split(".")[-1]
+            elif isinstance(par, (ast.If, ast.While, ast.IfExp)) and par.test is call:
+                where = "a test"
+            elif isinstance(par, ast.BoolOp) or (isinstance(par, ast.UnaryOp) and isinstance(par.op, ast.Not)):
+                where = "a boolean expression"
+            n_val += 1
+            if where:
+                n_q += 1
+                ctx.violation("C06-h", call, "%s uses `%s` in %s, but %s reports by raising and returns None on every path: the "
+                              "evaluation short-circuits on that None, so the check is not made for every item (only the first axis of "
+                              "multidimensional edges is validated)" % (A.qualname(fn), A.short(call, 50), where, q),
+                              construct="none-verdict-used:%s:%s" % (A.qualname(fn), q))
+    ctx.note("calls_of_raising_procedures", n_val)
     ctx.note("statement_calls_of_lena_functions", n_calls)
     ctx.instances_floor("C06-h", n_calls, 20, "statement-level calls of module functions of lena")
     if not n_q:
